@@ -1,7 +1,6 @@
-(** Preservation of the upgrade invariant, label group C (see Eio/UpgradeInv.v). *)
+(** Preservation of the upgrade invariant (Eio/UpgradeInv.v) by label CRecvWs. *)
 From SioV Require Import Base.GoSem Base.Conc Eio.Upgrade Eio.UpgradeInv.
 From Coq Require Import Lia.
 
 Lemma inv_CRecvWs n st st' : inv n st -> step CRecvWs st = Some st' -> inv n st'.
 Proof. intros I H. label_case. Qed.
-
